@@ -3,7 +3,7 @@
    union and settlement association), every search bound FUEL, every date, modifier and flag.
    elig s d = bus d && (s -> settle d). *)
 From Coq Require Import ZArith List Bool.
-From RL Require Import Base.Outcome Model.Dates Model.Calendar Proofs.CalendarP.
+From RL Require Import Base.Outcome Model.Dates Model.Calendar Proofs.CalendarP Proofs.CalExt.
 Import ListNotations.
 Open Scope Z_scope.
 
@@ -46,6 +46,13 @@ Proof. exact roll_fixpoint. Qed.
 Theorem C04_idempotent : forall bus settle FUEL m s d r,
   roll bus settle FUEL d m s = Ok r -> roll bus settle FUEL r m s = Ok r.
 Proof. exact roll_idempotent. Qed.
+
+(* A calendar is its BEHAVIOUR.  same_listing c c' : the two calendars exclude the same weekdays and hold the same
+   holidays — listed in any order, with or without repetitions (a constructor call, a saved document read back).  Such
+   calendars adjust every date identically, for every modifier, flag and search bound. *)
+Theorem C04_listing_free : forall c c', same_listing c c' -> forall FUEL d m s,
+  roll (cal_is_bus c) (cal_is_settle c) FUEL d m s = roll (cal_is_bus c') (cal_is_settle c') FUEL d m s.
+Proof. exact (fun c c' SL FUEL => proj1 (cal_ops_listing_free c c' SL FUEL)). Qed.
 
 (* non-vacuity: weekend-only calendar, Saturday 2024-03-30 rolls F to Monday 2024-04-01 and ModF
    back to Friday 2024-03-29 *)
